@@ -73,7 +73,8 @@ def rule_pure(ctx) -> None:
                   f"{h} can return `{src(bad.value)[:40] if bad is not None else ''}`, an object of the caller's input: every later normalisation store into it mutates the input")
     dm = ctx.func(f"{V}:_deep_merge")
     stores = [x for x in walk_no_defs(dm.node) if isinstance(x, ast.Assign) and any(isinstance(t, ast.Subscript) for t in x.targets)]
-    ctx.check(all(src(t.value) == "out" for x in stores for t in x.targets if isinstance(t, ast.Subscript)), "C14.PURE", f"{dm.qual}/stores-only-into-copy", dm.loc(),
+    copies = {x.value.id for x in walk_no_defs(dm.node) if isinstance(x, ast.Return) and isinstance(x.value, ast.Name) and x.value.id not in dm.params}
+    ctx.check(bool(copies) and all(src(t.value) in copies for x in stores for t in x.targets if isinstance(t, ast.Subscript)), "C14.PURE", f"{dm.qual}/stores-only-into-copy", dm.loc(),
               "_deep_merge stores only into its own copy", "_deep_merge stores into one of its arguments")
     fn = ctx.func(IMPL)
     cfg = ctx.cfg(fn)
@@ -422,7 +423,10 @@ def rule_contract(ctx) -> None:
                     if any(p and tt == f"'{k0}' in {t.value.id}" for tt, p in icfg.facts(nd)):
                         continue
                     stored.setdefault(t.value.id, set()).add(k0)
-    sec_var = {"t1": "t1", "t2": "t2", "t3": "t3", "t4": "t4"}
+    _subs = _validator_subdicts(ctx, impl)
+    sec_var = {pth: v for v, (pth, _n) in _subs.items() if pth in ("t1", "t2", "t3", "t4")}
+    for _sec in ("t1", "t2", "t3", "t4"):
+        sec_var.setdefault(_sec, _sec)
     # (1) hard subscripts on stage config dictionaries in the engine
     engine_subs: List[Tuple[Func, ast.Subscript, str, str]] = []
     roots = {"cfg_t1": "t1", "cfg_t2": "t2", "cfg_t3": "t3", "cfg_t4": "t4"}
@@ -543,7 +547,15 @@ COERCERS = {"_coerce_int", "_coerce_float", "_coerce_bool", "int", "float", "max
 def _validator_subdicts(ctx, impl) -> Dict[str, Tuple[str, object]]:
     """validator local -> (config path, binding node) for `x = _ensure_subdict(parent, "k")` chains from `merged`"""
     cfg = ctx.cfg(impl)
-    out: Dict[str, Tuple[str, object]] = {"merged": ("", None)}
+    # the root is whatever _ensure_subdict is applied to without itself coming from _ensure_subdict (the merged tree)
+    made, used = set(), set()
+    for n in cfg.nodes:
+        a = n.ast
+        if n.kind == "stmt" and isinstance(a, ast.Assign) and len(a.targets) == 1 and isinstance(a.targets[0], ast.Name) and isinstance(a.value, ast.Call) \
+                and call_tail(a.value) == "_ensure_subdict" and len(a.value.args) == 2 and isinstance(a.value.args[0], ast.Name):
+            made.add(a.targets[0].id)
+            used.add(a.value.args[0].id)
+    out: Dict[str, Tuple[str, object]] = {r: ("", None) for r in used - made}
     for _ in range(4):
         for n in cfg.nodes:
             a = n.ast
